@@ -1,10 +1,8 @@
 INIT GenInit
 NEXT GenNext
-CONSTANT Frames = {0, 1, 32}
+CONSTANT Frames = {0, 1, 512}
 CONSTANT Times = {0, 1, 2, 3, 4}
-CONSTANT Ws = {0, 1, 2, 3}
-CONSTANT MaxLen = 2
-CONSTANT W0MaxLen = 2
+CONSTANT LenOf <- L2222
 CONSTANT TicksPerMs = 1
 CONSTANT FullRx = TRUE
 CONSTANT Receivers = {0, 1}
